@@ -17,10 +17,10 @@
 enum { M_LIN, M_UNIQUE, M_OWNER, M_RESIZE };
 enum {
 	K_ADD, K_ADD_UNIQUE, K_ADD_REPLACE, K_REPLACE, K_DEL, K_LOOKUP, K_WALK, K_TRAVERSE,
-	K_RESIZE, K_FILL, K_NK
+	K_RESIZE, K_FILL, K_DRAIN, K_NK
 };
 static const char *const opname[] = {
-	"add", "add_unique", "add_replace", "replace", "del", "lookup", "walk", "traverse", "resize", "fill"
+	"add", "add_unique", "add_replace", "replace", "del", "lookup", "walk", "traverse", "resize", "fill", "drain"
 };
 
 #define NKEYS 5		/* 0..2 active, 3..4 resident (lookups only) */
@@ -129,6 +129,7 @@ static struct hnode *to_hnode(struct cds_lfht_node *n, const char *where)
 	struct hnode *h;
 	if (!n)
 		return NULL;
+	usim_node_check(n, sizeof(*n), where);
 	h = caa_container_of(n, struct hnode, n);
 	if (h->magic != HMAGIC)
 		usim_fail("lfht-bad-node", "%s returned a pointer that is not a user node", where);
@@ -182,6 +183,37 @@ static void free_node_cb(struct rcu_head *rh)
 	free(caa_container_of(rh, struct hnode, rh));
 }
 
+static void retire(struct hnode *h);
+
+/*
+ * Removal and reclamation of filler nodes, one at a time (a grace period or a call_rcu each):
+ * whoever still walks the chains meanwhile, a resize included, must be a reader the grace
+ * period waits for.
+ */
+static void do_drain(int first, int n)
+{
+	int j;
+	for (j = first; j < first + n && j < FILL_MAX; j++) {
+		struct cds_lfht_iter it;
+		struct hnode *h;
+		uint64_t inv;
+		int key = 200 + j;
+		F->read_lock();
+		cds_lfht_lookup(ht, fill_hash(j), match_fn, &key, &it);
+		h = to_hnode(cds_lfht_iter_get_node(&it), "cds_lfht_lookup");
+		if (h) {
+			inv = usim_seq();
+			if (cds_lfht_del(ht, &h->n) == 0) {
+				hor_removed(h->id, inv);
+				usim_probe("lfht.filler_node_removed_and_reclaimed");
+			} else
+				h = NULL;
+		}
+		F->read_unlock();
+		retire(h);
+	}
+}
+
 /* the owner of a removed node reclaims it after a grace period; call OUTSIDE the read-side section */
 static void retire(struct hnode *h)
 {
@@ -208,6 +240,8 @@ static void do_resize(unsigned long size)
 static unsigned short stall_ord[MAX_SCRIPT_THREADS][MAX_OPS];
 static unsigned short stall_len[MAX_SCRIPT_THREADS][MAX_OPS];
 static int final_stall_ord, final_stall_len, final_grow, destroy_first;
+static int prefill;
+static unsigned long pre_resize;
 
 static void do_op(int me, struct op *op)
 {
@@ -226,6 +260,10 @@ static void do_op(int me, struct op *op)
 	}
 	if (op->kind == K_FILL) {
 		do_fill(op->b, (int) op->v);
+		return;
+	}
+	if (op->kind == K_DRAIN) {
+		do_drain(op->b, (int) op->v);
 		return;
 	}
 	if (H->n + 3 > WGL_MAXOPS - 2)
@@ -378,6 +416,8 @@ static void *h_thread(void *arg)
 			usim_set_op("%d.%d cds_lfht_resize(%lu)", me, i, (unsigned long) op->v);
 		else if (op->kind == K_FILL)
 			usim_set_op("%d.%d fill %ld nodes", me, i, op->v);
+		else if (op->kind == K_DRAIN)
+			usim_set_op("%d.%d remove and reclaim filler nodes %d..%ld", me, i, op->b, op->b + op->v - 1);
 		else
 			usim_set_op("%d.%d %s key%d", me, i, opname[op->kind], op->a);
 		/* qsbr: a registered thread is online whenever it uses the table */
@@ -423,20 +463,29 @@ static void gen(void)
 {
 	int t, i, k, nkeys_active = 1 + rnd(3);
 	static const unsigned long inits[] = { 1, 2, 4 }, mins[] = { 1, 2 }, maxs[] = { 4, 8, 16, 64 };
-	int mmsel, total_per_key[NKEYS] = { 0 }, nfill = 0;
+	int mmsel, total_per_key[NKEYS] = { 0 }, nfill = 0, focus;
 	const struct cds_lfht_mm_type *mm;
 
 	F = choose_flavor(0xf);
 	choose_rcu_knobs(0);
+	/*
+	 * Reclaim focus (a quarter of the resize runs): a grown table full of filler nodes, one thread
+	 * that shrinks and grows it, the others removing and reclaiming the fillers one grace period
+	 * at a time. Whatever walks the chains on behalf of the resize must be covered by a read-side
+	 * section of the table's flavor for as long as it stands on a node.
+	 */
+	focus = mode == M_RESIZE && (int) usim_param("reclaim_focus", rnd(4) == 0);
 	init_size = (unsigned long) usim_param("ht.init", inits[rnd(3)]);
 	min_alloc = (unsigned long) usim_param("ht.min_alloc", mins[rnd(2)]);
 	mmsel = (int) usim_param("ht.mm", rnd(4));
 	max_buckets = (unsigned long) usim_param("ht.max", (mmsel == 2 && rnd(3) == 0) ? 512 : maxs[rnd(4)]);
+	if (focus && max_buckets < 8)
+		max_buckets = 16;
 	ht_flags = (int) usim_param("ht.flags", rnd(4));
 	use_custom_alloc = (int) usim_param("ht.custom_alloc", rnd(2));
 	mm = mmsel == 0 ? &cds_lfht_mm_order : mmsel == 1 ? &cds_lfht_mm_chunk :
 	     mmsel == 2 ? &cds_lfht_mm_mmap : NULL;
-	usim_set_ncpus((int) usim_param("ncpus", 1 << rnd(3)));
+	usim_set_ncpus((int) usim_param("ncpus", pick(ncpu_choices, 8)));
 	usim_set_knob(URCU_VERIF_KNOB_MIN_PARTITION_ORDER, (unsigned long) usim_param("knob.min_partition_order", rnd(2) == 0 ? 12 : rnd(2)));
 	usim_set_knob(URCU_VERIF_KNOB_COUNT_COMMIT_ORDER, (unsigned long) usim_param("knob.count_commit_order", 1 + rnd(2)));
 	usim_fault_enable("getcpu_migrate", rnd(2));
@@ -469,12 +518,21 @@ static void gen(void)
 	}
 	usim_describe("],");
 	nthreads = (int) usim_param("nthreads", 2 + rnd(usim_tier() ? 4 : 3));
+	/* resize runs: half start from a table that already holds filler nodes (and may have been grown) */
+	prefill = (int) usim_param("prefill", focus ? 6 + (int) rnd(FILL_MAX - 5) :
+				   mode == M_RESIZE && rnd(2) ? 2 + (int) rnd(FILL_MAX - 1) : 0);
+	pre_resize = (unsigned long) usim_param("pre_resize", focus ? 8UL << rnd(2) : prefill && rnd(2) ? 8UL << rnd(3) : 0);
+	if (pre_resize > max_buckets)
+		pre_resize = max_buckets;
+	nfill = prefill;
 	nresident = (int) usim_param("nresident", rnd(3));
 	next_id = 0;
-	usim_describe("\"resident\":%d,\"threads\":[", nresident);
+	usim_describe("\"resident\":%d,\"prefill\":%d,\"pre_resize\":%lu,\"threads\":[", nresident, prefill, pre_resize);
 	for (t = 0; t < nthreads; t++) {
 		struct script *s = &scripts[t];
 		int resizer = (mode == M_RESIZE) ? (t < (F->is_qsbr ? 1 : 2) ? (int) rnd(2) : 0) : (t == nthreads - 1 && rnd(3) == 0);
+		if (focus)
+			resizer = t == 0;
 		s->nops = 1 + rnd(usim_tier() ? 7 : 5);
 		usim_describe("%s[", t ? "," : "");
 		for (i = 0; i < s->nops; i++) {
@@ -483,9 +541,11 @@ static void gen(void)
 			k = rnd(nkeys_active);
 			op->a = k;
 			op->b = rnd(3);
-			if (resizer && r < 70) {
+			if (resizer && (r < 70 || focus)) {
 				op->kind = K_RESIZE;
 				op->v = (long) pick_resize_size();
+				if (focus && rnd(2))
+					op->v = (i & 1) ? 16 : 1 + (long) rnd(2);
 			} else if (nfill < FILL_MAX && rnd(100) < (mode == M_RESIZE ? 14u : 5u)) {
 				op->kind = K_FILL;
 				op->c = rnd(3);
@@ -494,6 +554,10 @@ static void gen(void)
 				if (nfill + op->v > FILL_MAX)
 					op->v = FILL_MAX - nfill;
 				nfill += (int) op->v;
+			} else if (nfill && mode == M_RESIZE && rnd(100) < (focus ? 60u : prefill ? 30u : 10u)) {
+				op->kind = K_DRAIN;
+				op->b = rnd(nfill);
+				op->v = 1 + rnd(4);
 			} else if (r < 8 && nresident) {
 				op->kind = rnd(2) ? K_LOOKUP : K_WALK;
 				op->a = 3 + rnd(nresident);
@@ -522,7 +586,7 @@ static void gen(void)
 				else if (r < 90) op->kind = K_WALK;
 				else op->kind = K_TRAVERSE;
 			}
-			if (op->kind != K_RESIZE && op->kind != K_FILL && op->kind != K_TRAVERSE && total_per_key[op->a] >= 12)
+			if (op->kind != K_RESIZE && op->kind != K_FILL && op->kind != K_DRAIN && op->kind != K_TRAVERSE && total_per_key[op->a] >= 12)
 				op->kind = K_TRAVERSE;
 			if (op->kind <= K_REPLACE) {
 				if (next_id >= 50)
@@ -530,7 +594,7 @@ static void gen(void)
 				else
 					op->v = next_id++;
 			}
-			if (op->kind != K_RESIZE && op->kind != K_FILL && op->kind != K_TRAVERSE)
+			if (op->kind != K_RESIZE && op->kind != K_FILL && op->kind != K_DRAIN && op->kind != K_TRAVERSE)
 				total_per_key[op->a]++;
 			/* one operation in five is suspended for a while at one of its first shared-memory accesses */
 			stall_ord[t][i] = rnd(5) == 0 ? 1 + rnd(14) : 0;
@@ -541,6 +605,8 @@ static void gen(void)
 				usim_describe("%s\"resize(%ld)\"", i ? "," : "", op->v);
 			else if (op->kind == K_FILL)
 				usim_describe("%s\"fill(%ld)\"", i ? "," : "", op->v);
+			else if (op->kind == K_DRAIN)
+				usim_describe("%s\"drain(%d,%ld)\"", i ? "," : "", op->b, op->v);
 			else if (op->kind == K_TRAVERSE)
 				usim_describe("%s\"traverse\"", i ? "," : "");
 			else
@@ -582,6 +648,12 @@ static void run_common(int m)
 	/* residents are checked by the presence oracle and by direct lookups (never absent) */
 	for (k = 0; k < nresident; k++)
 		hor_added(50 + k, 1);
+	if (prefill)
+		do_fill(0, prefill);
+	if (pre_resize) {
+		cds_lfht_resize(ht, pre_resize);
+		size_invariant("after the initial cds_lfht_resize()");
+	}
 	if (F->is_qsbr)
 		F->thread_offline();
 	for (t = 0; t < nthreads; t++)
